@@ -116,8 +116,9 @@ type SpecFunc struct {
 }
 
 type GhostVar struct {
-	Name string
-	Type string
+	Name    string
+	Type    string
+	PkgName string
 }
 
 type SpecFile struct {
@@ -129,6 +130,7 @@ type SpecFile struct {
 	Consts    map[string]*CE
 	RawSMT    []string
 	Trusted   []string // verbatim text of extern / axiom clauses (for the evidence)
+	ModSets   map[string][]string
 }
 
 var clauseKW = map[string]bool{
@@ -136,7 +138,7 @@ var clauseKW = map[string]bool{
 	"invariant": true, "decreases": true, "unroll": true, "nopanic": true, "maypanic": true, "panics_only_if": true,
 	"ints": true, "pure": true, "serves": true, "ghost": true, "ghost_entry": true, "ghost_exit": true,
 	"axiom": true, "lemma": true, "const": true, "smt": true, "package": true, "inline": true, "opt": true,
-	"spec": true, "isfunc": true, "macro": true,
+	"spec": true, "isfunc": true, "macro": true, "modset": true,
 }
 
 var reHead = regexp.MustCompile(`^([a-z_]+)(?:@(\d+))?(?:\[([A-Za-z0-9, ]+)\])?(?:\s+|$)`)
@@ -203,7 +205,7 @@ func parseSpecFile(path string, goFile bool, defaultPkg string) (*SpecFile, erro
 	if err != nil {
 		return nil, err
 	}
-	sf := &SpecFile{Consts: map[string]*CE{}}
+	sf := &SpecFile{Consts: map[string]*CE{}, ModSets: map[string][]string{}}
 	pkgName := defaultPkg
 	var cur *Contract
 	counts := map[string]int{}
@@ -353,7 +355,7 @@ func parseSpecFile(path string, goFile bool, defaultPkg string) (*SpecFile, erro
 			// ghost var name Type
 			f := strings.Fields(rest)
 			if len(f) >= 3 && f[0] == "var" {
-				sf.Ghosts = append(sf.Ghosts, GhostVar{Name: f[1], Type: strings.Join(f[2:], " ")})
+				sf.Ghosts = append(sf.Ghosts, GhostVar{Name: f[1], Type: strings.Join(f[2:], " "), PkgName: pkgName})
 			} else {
 				return nil, fail(cl, fmt.Errorf("ghost var NAME TYPE"))
 			}
@@ -416,6 +418,23 @@ func parseSpecFile(path string, goFile bool, defaultPkg string) (*SpecFile, erro
 				return nil, fail(cl, err)
 			}
 			sf.Consts[strings.TrimSpace(rest[:i])] = e
+			cur = nil
+		case "modset":
+			i := strings.Index(rest, "=")
+			if i < 0 {
+				return nil, fail(cl, fmt.Errorf("modset NAME = items"))
+			}
+			var items []string
+			for _, it := range strings.Split(rest[i+1:], ",") {
+				if it = strings.TrimSpace(it); it != "" {
+					// qualify Type.Field with the defining package so the set can be used from other packages
+					if pkgName != "" && regexp.MustCompile(`^[A-Z]\w*\.[\w*]+$`).MatchString(it) {
+						it = pkgName + "." + it
+					}
+					items = append(items, it)
+				}
+			}
+			sf.ModSets[strings.TrimSpace(rest[:i])] = items
 			cur = nil
 		case "smt":
 			sf.RawSMT = append(sf.RawSMT, rest)
